@@ -487,6 +487,16 @@ def emit(facts, rep, prop, rules, floors):
         for r in a.results:
             for ok, inst, site, why in a.results[r]:
                 if ok is None: rep.inconclusive(r, inst, site, why); break
+    if rep.tier == 'thorough' and 'RES.1' in rules:
+        import irlock, frontend
+        pub = {f'{CLS}::{n}()' for n in ('lockRead', 'lockWrite', 'unlockRead', 'unlockWrite')}
+        ok, viols, stats, err = irlock.check_class(frontend.REPO, 'src/threading/rwp/Resource.cpp', facts, CLS, 'm_mutex', list(STATE), lambda d: d in pub)
+        rep.rule('RES.1-IR', 'second reading of RES.1 from LLVM IR (-O0): every address computation of a monitor-state field executes with m_mutex held (entry states of internal functions = intersection over call sites)')
+        if ok is None: rep.inconclusive('RES.1-IR', 'IR cross-check', 'src/threading/rwp/Resource.cpp', err)
+        elif ok: rep.ok('RES.1-IR', f'{stats["state_address_computations"]} address computations of state fields in {stats["functions_touching_state"]} IR functions, all with the mutex held', 'src/threading/rwp/Resource.cpp')
+        else:
+            for fnm, ins in viols[:3]:
+                rep.violation('RES.1-IR', f'{fnm}: state field address computed without m_mutex', 'src/threading/rwp/Resource.cpp', ins, key=f'RES.1-IR|{fnm}', fn=fnm)
     rep.count('lock_rows', getattr(a, 'n_lock_rows', 0)); rep.count('unlock_rows', getattr(a, 'n_unlock_rows', 0))
     rep.count('state_accesses', getattr(a, 'n_access', 0))
     rep.assume('std::mutex / std::condition_variable behave as specified; the invariant argument over the reference monitor (DESIGN §4) is on paper')
